@@ -97,8 +97,14 @@ def gen_pods(rng, types):
     def pref_ct(p): p["pref"] = [{"weight": 10, "exprs": [sc.expr("ct", "In", [rng.choice(["od", "reserved"])])]}]
     def two_terms(p): p["terms"] = [[sc.expr("zone", "In", [rng.choice(ZONES)])], [sc.expr("zone", "In", [rng.choice(ZONES)])]]
     def sel_rid(p): p["sel"]["rid"] = rng.choice(["r1", "r2"])
+    def spread_zone(p):     # zonal spread: every commitment narrows the claim to one zone (releases the reservations of the other zones)
+        p["labels"]["app"] = "s"
+        p["spread"] = [{"key": "zone", "maxSkew": 1, "minDomains": 0, "when": "DoNotSchedule", "sel": {"app": "s"}, "affPol": "", "taintPol": "", "matchKeys": []}]
+    def anti_host(p):       # one pod per node: many claims compete for the same reservations
+        p["labels"]["app"] = "x"
+        p["anti"] = [{"key": "host", "sel": {"app": "x"}, "ns": [], "nsAll": False, "weight": 0}]
     simple = [sel_zone, sel_zone, sel_it, ct_od, ct_not_reserved, ct_reserved, ct_not_spot, zone_ab, zone_it, arch]
-    other = [pref_zone, pref_zone, pref_ct, two_terms, sel_rid]
+    other = [pref_zone, pref_zone, pref_ct, two_terms, sel_rid, spread_zone, spread_zone, anti_host, anti_host]
     pods = []
     for i in range(rng.choice([2, 3, 3, 4, 4, 5, 6, 8])):
         p = sc.plain_pod("w%d" % i, max(50, rng.choice(sizes)), rng.choice([64, 256, 1024]))
